@@ -44,7 +44,7 @@ use crate::dm::{
 use crate::error::{Error, ErrorCode};
 use crate::fabric::MAX_FABRICS;
 use crate::im::encoding::GenericPath;
-use crate::persist::{KvBlobStore, Persist, ICD_REGISTERED_CLIENTS_KEY};
+use crate::persist::{KvBlobStore, KvBlobStoreAccess, Persist, ICD_REGISTERED_CLIENTS_KEY};
 use crate::sc::checkin::{CheckIn, CheckInCounter};
 use crate::tlv::{FromTLV, TLVBuilderParent, TLVElement, ToTLV};
 use crate::utils::cell::RefCell;
@@ -383,6 +383,36 @@ impl Icd {
         Ok(())
     }
 
+    /// Drop every registration (and the stay-active deadline) and remove what this
+    /// state persists - the registrations and the Check-In counter boundary - from `kv`.
+    ///
+    /// Called on factory reset via the [`LifecycleOp::FactoryReset`] lifecycle operation
+    /// delivered to the [`IcdMgmtHandler`] borrowing this state. The registrations carry
+    /// the symmetric keys of their clients: none of it may survive a factory reset. With
+    /// every registration (and thus every key the counter was ever used with) gone, the
+    /// counter boundary has nothing left to protect; the application stores a new one when
+    /// it constructs the counter at the next start, as [`Icd::new`] describes.
+    ///
+    /// Returns `true` if there were registrations to drop.
+    pub fn reset_persist<S: KvBlobStore>(&self, mut kv: S, buf: &mut [u8]) -> Result<bool, Error> {
+        let removed = self.state.lock(|s| {
+            let mut s = s.borrow_mut();
+            let removed = !s.clients.is_empty();
+            s.clients.clear();
+            s.stay_active_until = None;
+            removed
+        });
+
+        if removed {
+            self.registrations_changed.notify();
+        }
+
+        kv.remove(ICD_REGISTERED_CLIENTS_KEY, buf)?;
+        kv.remove(crate::persist::ICD_CHECK_IN_COUNTER_KEY, buf)?;
+
+        Ok(removed)
+    }
+
     /// Persist the current registrations to `ctx.kv()`.
     pub fn store_registrations<C: HandlerContext>(&self, ctx: &C) -> Result<(), Error> {
         let mut persist = Persist::new(ctx.kv());
@@ -693,10 +723,34 @@ impl ClusterHandler for IcdMgmtHandler<'_> {
 
     fn lifecycle(&self, ctx: impl HandlerContext, op: LifecycleOp) -> Result<(), Error> {
         match op {
-            // Registration re-hydration and factory reset are app-driven
-            // (`Icd::load_registrations` / KV wipe), since the `Icd` state is
-            // owned by the application and shared with the Check-In machinery.
-            LifecycleOp::Startup | LifecycleOp::FactoryReset => Ok(()),
+            // Registration re-hydration is app-driven (`Icd::load_registrations`),
+            // since the `Icd` state is owned by the application and shared with
+            // the Check-In machinery.
+            LifecycleOp::Startup => Ok(()),
+            // A factory reset, on the other hand, must not leave the registrations
+            // (with their clients' keys) nor the counter boundary in the store:
+            // there is no other code that would remove these two keys.
+            LifecycleOp::FactoryReset => {
+                let mode_before = self.icd.operating_mode();
+
+                let removed = ctx
+                    .kv()
+                    .access(|store, buf| self.icd.reset_persist(store, buf))?;
+
+                if removed {
+                    if self.icd.operating_mode() != mode_before {
+                        ctx.notify_attr_changed(
+                            ROOT_ENDPOINT_ID,
+                            Self::CLUSTER.id,
+                            AttributeId::OperatingMode as _,
+                        );
+                    }
+
+                    self.sync_icd_mode(&ctx);
+                }
+
+                Ok(())
+            }
             LifecycleOp::FabricRemoval { fab_idx } => {
                 let mode_before = self.icd.operating_mode();
 
